@@ -114,8 +114,9 @@ type c11Case struct {
 	Fanout int      `json:"fanout,omitempty"`
 	Names  []string `json:"names,omitempty"`
 	// Kind "concurrent": one schedule of two builds through a shared LinkSystem
-	Pair    string `json:"pair,omitempty"`
-	Choices []int  `json:"choices,omitempty"`
+	Pair    string   `json:"pair,omitempty"`
+	Choices []int    `json:"choices,omitempty"`
+	Shared  []string `json:"shared_sites,omitempty"`
 }
 
 func (c c11Case) String() string {
@@ -166,6 +167,11 @@ func (c c11Case) run(viol func(sig, detail string), r *core.Run) {
 		for _, pr := range c11Pairs() {
 			if c11PairName(pr) == c.Pair {
 				gen.WithWidth(2, func() {
+					c11Shared = map[string]bool{}
+					for _, st := range c.Shared {
+						c11Shared[st] = true
+					}
+					defer func() { c11Shared = map[string]bool{} }()
 					xplore.RunOne(c.Choices, nil, 0, func(x *xplore.Ctx) string { return c11ConcurrentBody(pr, c11Solo(pr), x, viol, nil) })
 				})
 				return
@@ -196,6 +202,15 @@ func (c c11Case) run(viol func(sig, detail string), r *core.Run) {
 		} else {
 			root, sz, err = gen.OursDir(s, es)
 		}
+	case "plain-dup-names":
+		// the entry list repeats names (the builder takes any list): whatever it
+		// writes, the returned size is the tree sum of what it wrote
+		s = store.New()
+		es := gen.Leaves(s, c.Names)
+		first, last := es[0], es[len(es)-1]
+		es = append(es, gen.DirEntry{Name: first.Name, Cid: last.Cid, Tsize: last.Tsize})
+		es = append([]gen.DirEntry{{Name: last.Name, Cid: first.Cid, Tsize: first.Tsize}}, es...)
+		root, sz, err = gen.OursDir(s, es)
 	case "plain", "auto":
 		s = store.New()
 		root, sz, err = gen.OursDir(s, gen.Leaves(s, c.Names))
@@ -325,11 +340,21 @@ func c11Pairs() [][2]c11Build {
 			return builder.BuildUnixFSDirectory(links, ls)
 		}, nil}
 	}
+	shardOf := func(fanout int, names ...string) c11Build {
+		return c11Build{fmt.Sprintf("shard-F%d%q", fanout, trimNames(names)), func(s *store.Store, ls *ipld.LinkSystem) (ipld.Link, uint64, error) {
+			links, err := gen.PBLinks(gen.Leaves(s, names))
+			if err != nil {
+				return nil, 0, err
+			}
+			return builder.BuildUnixFSShardedDirectory(fanout, 0x22, links, ls)
+		}, nil}
+	}
 	symOf := func(n int) c11Build {
 		return c11Build{fmt.Sprintf("symlink-%d", n), func(s *store.Store, ls *ipld.LinkSystem) (ipld.Link, uint64, error) {
 			return builder.BuildUnixFSSymlink(strings.Repeat("t", n), ls)
 		}, nil}
 	}
+	col := gen.Colliders("k", 12, 3)
 	return [][2]c11Build{
 		{fileOf(3, "size-3"), fileOf(1000, "size-1000")},
 		{fileOf(7, "size-3"), fileOf(2, "size-3")},
@@ -338,10 +363,18 @@ func c11Pairs() [][2]c11Build {
 		{fileOf(3, "size-3"), dirOf("a", "bb", "ccc")},
 		{symOf(5), fileOf(400, "size-500")},
 		{dirOf("x"), dirOf("a long entry name", "b", "c", "d")},
+		{shardOf(8, col[0], col[1], "b c"), shardOf(8, col[2], "é", "0", col[0])},
+		{shardOf(256, "a", "b"), fileOf(7, "size-3")},
 	}
 }
 
 var c11execs int
+
+// c11Shared: instrumented sites that are scheduling points (fixpoint over the
+// sites seen touched by both builds with at least one of them not a plain
+// read); c11Promoted collects candidates during an exploration.
+var c11Shared = map[string]bool{}
+var c11Promoted = map[string]bool{}
 
 func c11PairName(pr [2]c11Build) string { return pr[0].name + " || " + pr[1].name }
 
@@ -375,7 +408,10 @@ func c11ConcurrentBody(pr [2]c11Build, solo [2]string, x *xplore.Ctx, viol func(
 	// scheduling points: storage operations and (instrumented build) sync
 	// operations; instrumented accesses feed the race oracle only
 	oldGC := debug.SetGCPercent(-1) // no address reuse inside one execution (see C17)
-	sc := runScheduled(x, map[string]bool{}, nil, []func() string{body(0), body(1)})
+	sc := runScheduled(x, c11Shared, nil, []func() string{body(0), body(1)})
+	for st := range sc.promoted {
+		c11Promoted[st] = true
+	}
 	debug.SetGCPercent(oldGC)
 	c11execs++
 	if c11execs%300 == 0 {
@@ -408,27 +444,55 @@ func c11ConcurrentBody(pr [2]c11Build, solo [2]string, x *xplore.Ctx, viol func(
 	return fmt.Sprint(sc.threads[0].result, sc.threads[1].result)
 }
 
-func c11Concurrent(r *core.Run) {
+func c11Concurrent(r *core.Run) { concurrentBuilds(r, func([2]c11Build) bool { return true }) }
+
+// concurrentBuilds: the shared "two interleaved builds" exploration (used by
+// C07, C10 and C11 with their own pair filters).
+func concurrentBuilds(r *core.Run, want func(pr [2]c11Build) bool) {
 	var execs int64
 	for _, pr := range c11Pairs() {
 		pr := pr
+		if !want(pr) {
+			continue
+		}
 		desc := c11PairName(pr)
 		ex := &xplore.Explorer{Bound: 2, Horizon: 4000, Replay: 2, MaxExecs: 200000, OnDiverge: func(ch []int, a, b string) {
 			r.InternalError(fmt.Sprintf("C11 concurrent: nondeterministic replay %s %v: %q vs %q", desc, ch, a, b))
 		}}
 		gen.WithWidth(2, func() {
 			solo := c11Solo(pr)
-			ex.Explore(func(x *xplore.Ctx) string {
-				return c11ConcurrentBody(pr, solo, x, func(sig, detail string) {
-					r.Violate(sig, detail, c11Case{Kind: "concurrent", Pair: desc, Choices: append([]int{}, x.Choices...)})
-				}, nil)
-			}, func(res xplore.Result) {
-				if res.Panic != nil {
-					r.Violate("panic scheduler", fmt.Sprint(res.Panic), nil)
+			c11Shared = map[string]bool{}
+			for round := 0; round < 5; round++ {
+				c11Promoted = map[string]bool{}
+				sharedNow := sortedKeys(c11Shared)
+				ex.Explore(func(x *xplore.Ctx) string {
+					return c11ConcurrentBody(pr, solo, x, func(sig, detail string) {
+						r.Violate(sig, detail, c11Case{Kind: "concurrent", Pair: desc, Choices: append([]int{}, x.Choices...), Shared: sharedNow})
+					}, nil)
+				}, func(res xplore.Result) {
+					if res.Panic != nil {
+						r.Violate("panic scheduler", fmt.Sprint(res.Panic), nil)
+					}
+				})
+				execs += int64(ex.Stats.Executions)
+				grew := false
+				next := map[string]bool{}
+				for k := range c11Shared {
+					next[k] = true
 				}
-			})
+				for k := range c11Promoted {
+					if !next[k] {
+						next[k], grew = true, true
+					}
+				}
+				if !grew {
+					break
+				}
+				c11Shared = next // only between explorations: replays stay deterministic
+			}
+			r.Set("concurrent_shared_sites "+desc, sortedKeys(c11Shared))
+			c11Shared = map[string]bool{}
 		})
-		execs += int64(ex.Stats.Executions)
 		r.Transitions.Add(int64(ex.Stats.ChoicePoints))
 		r.States.Add(1)
 		r.Distinct("concurrent " + desc)
@@ -479,6 +543,9 @@ func runC11(r *core.Run) {
 		}
 		if mask < 512 {
 			cases = append(cases, c11Case{Kind: "plain", Names: names})
+		}
+		if mask > 0 && mask < 64 {
+			cases = append(cases, c11Case{Kind: "plain-dup-names", Names: names})
 		}
 		if mask > 2 && mask < 256 {
 			cases = append(cases, c11Case{Kind: "plain-shared-targets", Names: names}, c11Case{Kind: "sharded-shared-targets", Fanout: 8, Names: names})
